@@ -85,6 +85,26 @@ struct Stats {
 	hydrate_variant_mismatch: u64,
 	known_probes: u64,
 	oracle_fails: u64,
+	/// aggregates (two or more operands, some valid non-zero offset) whose offset came out zero:
+	/// all of them / those that are conflict-free / those whose validate() is Ok
+	agg_cancel: u64,
+	agg_cancel_cf: u64,
+	agg_cancel_valid: u64,
+	/// conflict-free operand lists with cancelling offsets whose aggregate FAILED
+	agg_cancel_failed: u64,
+	/// inner groups of a grouping whose offsets cancel (group result has offset zero)
+	group_cancel: u64,
+	/// de-aggregations whose remainder has offset zero while the known subset's offset is not zero
+	/// (among them: the whole set de-aggregated): ok / error, and how many went through the
+	/// remainder oracle and were equal to the remainder
+	deagg_zero_rem_ok: u64,
+	deagg_zero_rem_err: u64,
+	deagg_zero_rem_oracle_equal: u64,
+	deagg_whole_ok: u64,
+	/// blocks whose previous total offset cancels the aggregate's offset (header offset zero)
+	block_cancel_ok: u64,
+	block_cancel_err: u64,
+	cancel_cases: u64,
 }
 
 struct World<'a> {
@@ -99,6 +119,11 @@ struct World<'a> {
 	use_excess: Option<BlindingFactor>,
 	/// private excess and features of the kernel built last
 	last_excess: Option<(BlindingFactor, KernelFeatures)>,
+	/// de-aggregation subsets (operand positions) to run in the next case besides the random ones
+	extra_subs: Vec<Vec<usize>>,
+	/// the next case builds its block on a previous header whose total offset is minus the
+	/// aggregate's offset
+	cancel_prev: bool,
 }
 
 fn err_name(e: &TxError) -> String {
@@ -497,8 +522,32 @@ fn is_zero_offset(tx: &Transaction) -> bool {
 	tx.offset.is_zero()
 }
 
-/// sum of offsets modulo the group order is zero although some offset is non-zero
-/// (evaluated with the real secp arithmetic: x + y == 0  <=>  y == n - x)
+/// the offset is a non-zero scalar (what `to_secrets` keeps)
+fn has_scalar_offset(kc: &ExtKeychain, tx: &Transaction) -> bool {
+	!tx.offset.is_zero() && tx.offset.secret_key(kc.secp()).is_ok()
+}
+
+/// sum of offsets modulo the group order is zero although some offset is non-zero:
+/// the result carries the zero offset and some operand a non-zero scalar
+fn offsets_cancel(kc: &ExtKeychain, txs: &[Transaction], result: &Transaction) -> bool {
+	txs.len() >= 2 && result.offset.is_zero() && txs.iter().any(|t| has_scalar_offset(kc, t))
+}
+
+/// sum of the non-zero offsets (plain secp blind_sum, not the code under test); None when there is
+/// none or when they cancel
+fn sum_offsets(kc: &ExtKeychain, txs: &[Transaction]) -> Option<BlindingFactor> {
+	let secp = kc.secp();
+	let keys: Vec<SecretKey> = txs
+		.iter()
+		.filter(|t| !t.offset.is_zero())
+		.filter_map(|t| t.offset.secret_key(secp).ok())
+		.collect();
+	if keys.is_empty() {
+		return None;
+	}
+	secp.blind_sum(keys, vec![]).ok().map(BlindingFactor::from_secret_key)
+}
+
 fn describe_tx(ids: &Ids, tx: &Transaction) -> String {
 	ids.tx_str(tx)
 }
@@ -622,6 +671,15 @@ fn run_case(
 				x => x,
 			};
 			w.st.validates += 1;
+			if offsets_cancel(w.kc, &txs, agg) {
+				w.st.agg_cancel += 1;
+				if conflict_free {
+					w.st.agg_cancel_cf += 1;
+				}
+				if v.is_ok() {
+					w.st.agg_cancel_valid += 1;
+				}
+			}
 			match &v {
 				Ok(()) => {}
 				Err(e) => {
@@ -635,6 +693,9 @@ fn run_case(
 		Err(e) => {
 			*w.st.agg_err.entry(err_name(e)).or_insert(0) += 1;
 			if conflict_free {
+				if txs.iter().any(|t| has_scalar_offset(w.kc, t)) && sum_offsets(w.kc, &txs).is_none() {
+					w.st.agg_cancel_failed += 1;
+				}
 				if err_name(e) == "Secp" {
 					known_probe(out, &mut w.st, &format!("aggregate-offset-sum-zero case {}: aggregate of conflict-free valid transactions fails with Secp (offsets sum to zero mod n)", case_no));
 				} else {
@@ -682,7 +743,12 @@ fn run_case(
 		for g in &groups {
 			let gt: Vec<Transaction> = g.iter().map(|i| txs[*i].clone()).collect();
 			match transaction::aggregate(&gt) {
-				Ok(t) => inner.push(t),
+				Ok(t) => {
+					if offsets_cancel(w.kc, &gt, &t) {
+						w.st.group_cancel += 1;
+					}
+					inner.push(t)
+				}
 				Err(e) => {
 					inner_err = Some(e);
 					break;
@@ -694,7 +760,8 @@ fn run_case(
 			Some(e) => {
 				w.st.group_inner_err += 1;
 				out.line(&lhs, &format!("inner-err:{}", err_name(&e)));
-				if conflict_free && err_name(&e) != "Secp" {
+				// (a group whose offsets cancel is an ordinary group: no error is tolerated)
+				if conflict_free {
 					oracle_fail(out, &mut w.st, &format!("case {}: aggregating group of conflict-free valid transactions fails with {} (grouping {})", case_no, err_name(&e), groups_str(&groups)));
 				}
 			}
@@ -718,21 +785,48 @@ fn run_case(
 	// ---- deaggregate
 	if let Ok(mk) = &flat {
 		let nd = if thorough { 6 } else { 3 };
-		for _ in 0..nd {
-			let mut sub: Vec<usize> = (0..n).filter(|_| w.rng.chance(1, 2)).collect();
-			if w.rng.chance(1, 10) {
-				sub = (0..n).collect();
+		let extra = std::mem::take(&mut w.extra_subs);
+		for di in 0..nd + extra.len() {
+			let mut sub: Vec<usize> = if di >= nd {
+				extra[di - nd].clone()
+			} else {
+				(0..n).filter(|_| w.rng.chance(1, 2)).collect()
+			};
+			if di < nd {
+				if w.rng.chance(1, 10) {
+					sub = (0..n).collect();
+				}
+				if w.rng.chance(1, 10) {
+					sub.clear();
+				}
+				shuffle(&mut w.rng, &mut sub);
 			}
-			if w.rng.chance(1, 10) {
-				sub.clear();
-			}
-			shuffle(&mut w.rng, &mut sub);
 			let stx: Vec<Transaction> = sub.iter().map(|i| txs[*i].clone()).collect();
 			let r = transaction::deaggregate(mk.clone(), &stx);
 			w.st.deaggs += 1;
 			out.line(&format!("tx deagg {} {} {}", case_no, idx_str(&all), idx_str(&sub)), &ids.res_str(&r));
 			if let Err(e) = &r {
 				*w.st.deagg_err.entry(err_name(e)).or_insert(0) += 1;
+			}
+			// zero remainder offset: the aggregate and the aggregate of the known subset carry the
+			// same non-zero offset (evaluated on the implementation's own values)
+			let zero_rem = match transaction::aggregate(&stx) {
+				Ok(a) => !mk.offset.is_zero() && a.offset == mk.offset && has_scalar_offset(w.kc, mk),
+				Err(_) => false,
+			};
+			if zero_rem {
+				match &r {
+					Ok(d) => {
+						w.st.deagg_zero_rem_ok += 1;
+						if sub.len() == n && n >= 2 {
+							w.st.deagg_whole_ok += 1;
+						}
+						if !d.offset.is_zero() {
+							oracle_fail(out, &mut w.st, &format!("case {}: deaggregate(aggregate {:?}, {:?}): both offsets are equal but the result's offset is not zero: {}", case_no, all, sub, ids.tx_str(d)));
+						}
+					}
+					Err(_) => w.st.deagg_zero_rem_err += 1,
+				}
 			}
 			// oracle for sets that do not spend each other's outputs: the remainder
 			if independent && conflict_free && n >= 2 {
@@ -744,6 +838,8 @@ fn run_case(
 					(Ok(e), Ok(d)) => {
 						if !tx_equal_modulo_repr(e, d) {
 							oracle_fail(out, &mut w.st, &format!("case {}: deaggregate(aggregate {:?}, {:?}) = {} is not the remainder {}", case_no, all, sub, ids.tx_str(d), ids.tx_str(e)));
+						} else if zero_rem {
+							w.st.deagg_zero_rem_oracle_equal += 1;
 						}
 					}
 					(Ok(e), Err(err)) => {
@@ -831,8 +927,28 @@ fn run_case(
 	if w.rng.chance(1, 2) {
 		prev.total_kernel_offset = BlindingFactor::from_secret_key(w.rand_scalar());
 	}
+	// previous total offset = minus the aggregate's offset: the header's total offset is zero
+	let mut block_cancels = false;
+	if std::mem::take(&mut w.cancel_prev) {
+		if let Ok(agg) = &flat {
+			if has_scalar_offset(w.kc, agg) {
+				prev.total_kernel_offset = negate(w.kc, &agg.offset);
+				block_cancels = true;
+			}
+		}
+	}
 	let blk = Block::from_reward(&prev, &txs, rout.clone(), rkern.clone(), Difficulty::min_dma());
 	w.st.blocks += 1;
+	if block_cancels {
+		match &blk {
+			Ok(b) if b.header.total_kernel_offset.is_zero() => w.st.block_cancel_ok += 1,
+			Ok(b) => oracle_fail(out, &mut w.st, &format!("case {}: previous total offset is minus the aggregate's offset but the block's total offset is {}", case_no, hex(b.header.total_kernel_offset.as_ref()))),
+			Err(e) => {
+				w.st.block_cancel_err += 1;
+				oracle_fail(out, &mut w.st, &format!("case {}: Block::from_reward fails with {} when the previous total offset cancels the aggregate's offset", case_no, block_err_name(e)));
+			}
+		}
+	}
 	let lhs = format!(
 		"tx block {} {} {} {} {}",
 		case_no,
@@ -1071,6 +1187,8 @@ fn main() {
 		st: Stats::default(),
 		use_excess: None,
 		last_excess: None,
+		extra_subs: vec![],
+		cancel_prev: false,
 	};
 
 	// ---- the pool of real transactions
@@ -1298,9 +1416,122 @@ fn main() {
 	}
 	out.raw(&format!("#STAT malformed-operand cases={} (offset not a scalar / unsorted body / aggregate with one of its parts)", malformed));
 
-	// ---- deliberate probes of the two offset corner cases
+	// ---- offsets that cancel, generated in numbers: a set of conflict-free operands out of the pool
+	// plus one fresh independent transaction whose offset is minus the sum of all the others' offsets
+	// (the aggregate's offset is zero), or minus the offset of one other operand (a group / a
+	// remainder with zero offset); de-aggregation of everything but the cancelling part and of the
+	// whole set; the block is built on a previous total offset that cancels the
+	// aggregate's offset.  All ordinary oracles apply.
+	let ncancel = if thorough { 240 } else { 36 };
+	for ci in 0..ncancel {
+		let n = w.rng.range(1, 6) as usize;
+		let mut ops: Vec<usize> = vec![];
+		let mut independent = true;
+		let excluded = |ops: &Vec<usize>, pool: &Vec<PTx>, i: usize| -> bool {
+			ops.iter().any(|o| *o == i || pool[*o].parts.contains(&i) || pool[i].parts.contains(o)
+				|| pool[*o].parts.iter().any(|p| pool[i].parts.contains(p)))
+		};
+		if ci % 3 != 2 {
+			// independent operands: one tx from each of n distinct conflict-free families
+			let mut fams: Vec<usize> = (0..nfam).filter(|f| f % 4 != 3).collect();
+			shuffle(&mut w.rng, &mut fams);
+			for f in fams.into_iter().take(n) {
+				let c: Vec<usize> = (0..w.pool.len()).filter(|i| w.pool[*i].family == f).collect();
+				let i = *w.rng.pick(&c);
+				if !excluded(&ops, &w.pool, i) {
+					ops.push(i);
+				}
+			}
+		} else {
+			// a whole conflict-free chained family
+			let fams: Vec<usize> = (0..nfam).filter(|f| f % 4 == 1 || f % 4 == 2).collect();
+			let f = *w.rng.pick(&fams);
+			let mut c: Vec<usize> = (0..w.pool.len()).filter(|i| w.pool[*i].family == f).collect();
+			shuffle(&mut w.rng, &mut c);
+			for i in c {
+				if !excluded(&ops, &w.pool, i) {
+					ops.push(i);
+				}
+			}
+			independent = !ops.iter().any(|i| w.pool[*i].parents.iter().any(|p| ops.iter().any(|o| o == p || w.pool[*o].parts.contains(p))));
+		}
+		if ops.is_empty() {
+			continue;
+		}
+		let otx: Vec<Transaction> = ops.iter().map(|i| w.pool[*i].tx.clone()).collect();
+		// what the fresh transaction cancels: everything (ci even) or one operand (ci odd)
+		let total = ci % 2 == 0;
+		let (target, partner): (Option<BlindingFactor>, Option<usize>) = if total {
+			(sum_offsets(w.kc, &otx), None)
+		} else {
+			let nz: Vec<usize> = (0..otx.len()).filter(|i| has_scalar_offset(w.kc, &otx[*i])).collect();
+			if nz.is_empty() {
+				(None, None)
+			} else {
+				let k = *w.rng.pick(&nz);
+				(Some(otx[k].offset.clone()), Some(k))
+			}
+		};
+		let target = match target {
+			Some(t) => t,
+			None => continue,
+		};
+		let (k1, k2) = (w.fresh_key(), w.fresh_key());
+		let v = w.rng.range(50, 5000);
+		let fee = w.rng.range(1, 9);
+		let features = w.rand_features(fee as u32);
+		let fresh = w.build_tx(&[(v, k1)], &[(v - fee, k2)], features, OffMode::Random, Some(negate(w.kc, &target)));
+		if fresh.validate(Weighting::AsTransaction).is_err() {
+			oracle_fail(&mut out, &mut w.st, &format!("cancelling case {}: the fresh transaction with offset {} is not valid", ci, hex(fresh.offset.as_ref())));
+		}
+		w.pool.push(PTx { tx: fresh, family: 20000 + ci, parents: vec![], conflict: false, parts: vec![] });
+		ops.push(w.pool.len() - 1);
+		let mut pushed = 1;
+		// positions after the shuffle
+		shuffle(&mut w.rng, &mut ops);
+		let fresh_pos = ops.iter().position(|o| *o == w.pool.len() - 1).unwrap();
+		if w.rng.chance(1, 6) {
+			// a features-and-commit representation of one operand
+			let k = w.rng.below(ops.len() as u64) as usize;
+			let mut p = w.pool[ops[k]].clone();
+			p.tx = to_v2(&p.tx);
+			w.pool.push(p);
+			ops[k] = w.pool.len() - 1;
+			pushed += 1;
+		}
+		let m = ops.len();
+		let mut subs: Vec<Vec<usize>> = vec![(0..m).collect()];
+		match partner {
+			None => {
+				// known subset = everything but the fresh one, and the fresh one alone
+				subs.push((0..m).filter(|i| *i != fresh_pos).collect());
+				subs.push(vec![fresh_pos]);
+			}
+			Some(k) => {
+				// known subset = everything but the cancelling pair: the remainder's offset is zero
+				let ppos = (0..m).find(|i| *i != fresh_pos && w.pool[ops[*i]].tx.offset == otx[k].offset);
+				if let Some(ppos) = ppos {
+					subs.push((0..m).filter(|i| *i != fresh_pos && *i != ppos).collect());
+					subs.push(vec![fresh_pos, ppos]);
+				}
+			}
+		}
+		w.extra_subs = subs;
+		w.cancel_prev = true;
+		w.st.cancel_cases += 1;
+		case_no += 1;
+		run_case(&mut out, &mut w, &ops, independent, thorough, case_no);
+		w.extra_subs.clear();
+		w.cancel_prev = false;
+		for _ in 0..pushed {
+			w.pool.pop();
+		}
+	}
+
+	// ---- deliberate probes of the two offset corner cases (recorded findings, repaired in /repo:
+	// the #KNOWN-PROBE lines below must not appear any more)
 	{
-		// (1) offsets x and n - x: both transactions valid, the aggregate is refused
+		// (1) offsets x and n - x: both transactions valid, the aggregate has offset zero
 		let k1 = w.fresh_key();
 		let k2 = w.fresh_key();
 		let k3 = w.fresh_key();
@@ -1315,6 +1546,7 @@ fn main() {
 		w.pool.push(PTx { tx: b, family: 9998, parents: vec![], conflict: false, parts: vec![] });
 		let l = w.pool.len();
 		case_no += 1;
+		w.extra_subs = vec![vec![0, 1], vec![0], vec![1]];
 		run_case(&mut out, &mut w, &[l - 2, l - 1], true, thorough, case_no);
 		// (2) remainder with zero offset
 		let k5 = w.fresh_key();
@@ -1324,6 +1556,7 @@ fn main() {
 		let l = w.pool.len();
 		for _ in 0..3 {
 			case_no += 1;
+			w.extra_subs = vec![vec![0], vec![0, 1]];
 			run_case(&mut out, &mut w, &[l - 3, l - 1], true, thorough, case_no);
 		}
 	}
@@ -1444,6 +1677,12 @@ fn main() {
 	out.raw(&format!(
 		"#STAT deaggregate: runs={} errors={:?} remainder-oracle evaluated={}; cut_through direct: runs={} errors={}",
 		st.deaggs, st.deagg_err, st.deagg_oracle_checked, st.cuts, st.cut_err
+	));
+	out.raw(&format!(
+		"#STAT cancelling offsets (repaired findings aggregate-offset-sum-zero / deaggregate-zero-remainder-offset): dedicated cases={}; aggregates whose non-zero offsets sum to zero: succeeded={} (conflict-free {}, validate() ok {}) failed-although-conflict-free={}; inner groups with cancelling offsets aggregated={}; de-aggregations with zero remainder offset (mk offset == subset offset != 0): succeeded={} (whole set de-aggregated {}, equal to the remainder by the oracle {}) failed={}; blocks whose previous total offset cancels the aggregate's offset: built with zero total offset={} failed={}",
+		st.cancel_cases, st.agg_cancel, st.agg_cancel_cf, st.agg_cancel_valid, st.agg_cancel_failed, st.group_cancel,
+		st.deagg_zero_rem_ok, st.deagg_whole_ok, st.deagg_zero_rem_oracle_equal, st.deagg_zero_rem_err,
+		st.block_cancel_ok, st.block_cancel_err
 	));
 	out.raw(&format!(
 		"#STAT blocks={} (errors {}) hydrates={} (input-representation mismatches {}) known-probes={} oracle-fails={}",
